@@ -6,7 +6,7 @@ catalog/data commit; (R2) no blocking (non-async) lock guard is alive across an 
 Does not decide: serializability of data operations (a history property)."""
 import re
 
-from tmpl import site, start_sites, done_sites, suffix, flows_from, pl_fields, origin_locals, local_defs
+from tmpl import site, start_sites, done_sites, suffix, flows_from, pl_fields, origin_locals, local_defs, region_callees
 from mir import operand_places
 
 SEC = 'storage::secondary::'
@@ -208,12 +208,43 @@ def commits_into_dropped_tables(ctx, prog):
         return
     INNER = SEC + 'version_manager::VersionManagerInner::'
 
-    def inner_fields(l, depth=4):
+    def inner_fields(l, depth=4, body=None):
+        body = body or b
         out = set()
-        for x in origin_locals(b, l, depth=depth):
-            for bb, kind, payload in local_defs(b, x):
+        for x in origin_locals(body, l, depth=depth):
+            for bb, kind, payload in local_defs(body, x):
                 if kind == 'assign':
                     out |= {f for pl in operand_places(payload) for f in pl_fields(pl) if f.startswith(INNER)}
+        return out
+
+    def deciding_tests(body, sinks):
+        """{field of VersionManagerInner: [block]}: `contains` tests on the field whose outcome decides between an error exit and
+        going on (to a sink of `body`, or - in a helper, sinks empty - to a return that is not an error exit)"""
+        errs_ = body.error_exit_blocks()
+        rets = {i for i, bl in enumerate(body.blocks) if bl['term']['k'] == 'return'}
+        out = {}
+        for c in body.calls:
+            if not c.args or c.args[0]['k'] == 'const' or not re.search(r'::(contains|contains_key)$', c.fn or ''):
+                continue
+            if any(body.reaches(a, c.bb) for a in sinks):
+                continue
+            decides = False
+            for i, bl in enumerate(body.blocks):
+                t = bl['term']
+                if t['k'] == 'switch' and not bl['cleanup'] and t['discr']['k'] != 'const' \
+                        and c.dest['l'] in origin_locals(body, t['discr']['pl']['l'], depth=4):
+                    outs = [tgt for _, tgt in t['targets']] + [t['otherwise']]
+                    if sinks:
+                        refuse = [o for o in outs if body.reachable_from([o]) & errs_ and not any(body.reaches(o, a) for a in sinks)]
+                        go_on = [o for o in outs if any(body.reaches(o, a) for a in sinks)]
+                    else:
+                        fine = {o: bool(body.reachable_from([o], avoid=errs_) & rets) for o in outs}
+                        refuse = [o for o in outs if not fine[o] and (o in errs_ or body.reachable_from([o]) & errs_)]
+                        go_on = [o for o in outs if fine[o]]
+                    decides |= bool(refuse) and bool(go_on)
+            if decides:
+                for f in inner_fields(c.args[0]['pl']['l'], body=body):
+                    out.setdefault(f, []).append(c.bb)
         return out
 
     def from_drop_entry(l, hops=2):
@@ -240,24 +271,21 @@ def commits_into_dropped_tables(ctx, prog):
     for c in b.calls:
         if not c.args or c.args[0]['k'] == 'const':
             continue
-        if re.search(r'::(contains|contains_key)$', c.fn or '') and not any(b.reaches(a, c.bb) for a in appends):
-            # the outcome of the test decides: one branch leaves with an error and never reaches the append, the other goes on
-            decides = False
-            for i, bl in enumerate(b.blocks):
-                t = bl['term']
-                if t['k'] == 'switch' and not bl['cleanup'] and t['discr']['k'] != 'const' \
-                        and c.dest['l'] in origin_locals(b, t['discr']['pl']['l'], depth=4):
-                    outs = [tgt for _, tgt in t['targets']] + [t['otherwise']]
-                    refuse = [o for o in outs if b.reachable_from([o]) & errs and not any(b.reaches(o, a) for a in appends)]
-                    go_on = [o for o in outs if any(b.reaches(o, a) for a in appends)]
-                    decides |= bool(refuse) and bool(go_on)
-            if decides:
-                for f in inner_fields(c.args[0]['pl']['l']):
-                    guards.setdefault(f, []).append(c.bb)
         if re.search(r'::(insert|extend|push)$', c.fn or '') and len(c.args) >= 2:
             for f in inner_fields(c.args[0]['pl']['l']):
                 if any(a['k'] != 'const' and from_drop_entry(a['pl']['l']) for a in c.args[1:]):
                     fed.setdefault(f, []).append(c.bb)
+    for f, bbs in deciding_tests(b, appends).items():
+        guards.setdefault(f, []).extend(bbs)
+    # the same test in a helper whose failure commit_changes propagates (`Self::refuse_dropped(&inner, &ops)?;`)
+    for c in b.calls:
+        if any(b.reaches(a, c.bb) for a in appends) or not (b.reachable_from([c.bb], avoid=set(appends)) & errs):
+            continue
+        for _, hb in region_callees(prog, b, {c.bb}, depth=2):
+            if c.bb != _.bb:
+                continue
+            for f, bbs in deciding_tests(hb, ()).items():
+                guards.setdefault(f, []).append(c.bb)
     both = sorted(set(guards) & set(fed))
     ctx.ob(R6, 'commit_changes·refuses-objects-of-a-dropped-table', bool(both),
            f'fields of VersionManagerInner fed from the DropTable operation: { {k.rsplit("::", 1)[-1]: v for k, v in fed.items()} }; tested '
@@ -289,6 +317,16 @@ def commits_into_dropped_tables(ctx, prog):
         lists = [c.bb for c in b.calls if c.bb in arm and (c.fn or '').endswith('Snapshot::get_rowsets_of') and c.args
                  and c.args[0]['k'] != 'const' and origin_locals(b, c.args[0]['pl']['l'], depth=4) & published]
         retires = [bb for bb, st in b.aggregates(MOP, 'DeleteRowSet') if bb in arm]
+        # the arm, or part of it, in a helper that is handed the snapshot being published
+        for c, hb in region_callees(prog, b, arm, depth=1):     # one level: the parameter numbers below are those of the callee
+            handed = {j + 1 for j, a in enumerate(c.args) if a['k'] != 'const' and origin_locals(b, a['pl']['l'], depth=6) & published}
+            if not handed:
+                continue
+            if hb.name == hb.root and any((hc.fn or '').endswith('Snapshot::get_rowsets_of') and hc.args and hc.args[0]['k'] != 'const'
+                   and origin_locals(hb, hc.args[0]['pl']['l'], depth=6) & handed for hc in hb.calls):
+                lists.append(c.bb)
+            if any(True for _ in hb.aggregates(MOP, 'DeleteRowSet')):
+                retires.append(c.bb)
         ctx.ob(R6, 'commit_changes·DropTable-retires-the-latest-version', bool(lists) and bool(retires),
                f'DropTable arm: Snapshot::get_rowsets_of on the snapshot being published at {lists}; DeleteRowSet records built at {retires}',
                [site(b, x) for x in (lists or sorted(arm)[:1])],
